@@ -17,6 +17,8 @@ import (
 	"sync"
 	"time"
 
+	log "github.com/sirupsen/logrus"
+
 	"git.metabarcoding.org/obitools/obitools4/obitools4/pkg/obiformats"
 	"git.metabarcoding.org/obitools/obitools4/obitools4/pkg/obiiter"
 	"git.metabarcoding.org/obitools/obitools4/obitools4/pkg/obiseq"
@@ -94,10 +96,14 @@ func c18Batch(k, n int, withQual bool) obiiter.BioSequenceBatch {
 type c18Arr struct{ order, n int }
 
 // c18Run drives the real writer over the sink with the forced arrival order (one formatting worker).
-func c18Run(w string, gz bool, arrival []c18Arr, out io.WriteCloser) string {
+func c18Run(w string, gz bool, own bool, arrival []c18Arr, out io.WriteCloser) string {
 	return guardT(4*time.Second, func() string {
-		opts := []obiformats.WithOption{obiformats.OptionsParallelWorkers(1), obiformats.OptionCloseFile(),
-			obiformats.OptionsCompressed(gz)}
+		opts := []obiformats.WithOption{obiformats.OptionsParallelWorkers(1), obiformats.OptionsCompressed(gz)}
+		if own {
+			opts = append(opts, obiformats.OptionCloseFile())
+		} else {
+			opts = append(opts, obiformats.OptionDontCloseFile())
+		}
 		it := obiiter.MakeIBioSequence()
 		it.Add(1)
 		go func() {
@@ -127,6 +133,13 @@ func c18Run(w string, gz bool, arrival []c18Arr, out io.WriteCloser) string {
 		ni.Consume()
 		// the writer goroutine closes the output last; the global pipe registry cannot be used here
 		// because a writer that died in log.Fatal never unregisters
+		if c18IsChild() {
+			// exactly what the commands' main() does: wait for the pipe registry, then exit.  (Usable
+			// because such cases run in a child process of their own: the registry is process wide and
+			// is left unbalanced by every writer that died in log.Fatal.)
+			obiiter.WaitForLastPipe()
+			return "ok"
+		}
 		if fs, ok := out.(*failSink); ok {
 			for i := 0; i < 2000; i++ {
 				fs.mu.Lock()
@@ -145,13 +158,14 @@ func c18Run(w string, gz bool, arrival []c18Arr, out io.WriteCloser) string {
 
 func (c18) Gen(rng *rand.Rand, tier string, emit func(string)) {
 	writers := []string{"fasta", "fastq", "json", "csv"}
-	one := func(w string, gz, k, cf int, arr []c18Arr) {
+	oneOwn := func(w string, gz, k, cf, own int, arr []c18Arr) {
 		parts := make([]string, len(arr))
 		for i, a := range arr {
 			parts[i] = fmt.Sprintf("%d:%d:-", a.order, a.n)
 		}
-		emit(fmt.Sprintf("%s gz=%d k=%d cf=%d zlen=0 %s", w, gz, k, cf, strings.Join(parts, " ")))
+		emit(fmt.Sprintf("%s gz=%d k=%d cf=%d zlen=0 own=%d %s", w, gz, k, cf, own, strings.Join(parts, " ")))
 	}
+	one := func(w string, gz, k, cf int, arr []c18Arr) { oneOwn(w, gz, k, cf, 1, arr) }
 	// corpus: small result (< 4 KiB: reaches the sink only at the final flush), drained chunks, close failure
 	for _, w := range writers {
 		small := []c18Arr{{0, 2}, {1, 1}}
@@ -166,6 +180,12 @@ func (c18) Gen(rng *rand.Rand, tier string, emit func(string)) {
 		one(w, 1, 10, 0, small)
 		one(w, 1, 1<<20, 0, small)
 		one(w, 1, 200, 0, big)
+		// a writer that does not own its output (what the ...ToStdout variants use)
+		for _, k := range []int{0, 100, 1 << 20} {
+			oneOwn(w, 0, k, 0, 0, small)
+		}
+		oneOwn(w, 0, 5000, 0, 0, big)
+		oneOwn(w, 1, 10, 0, 0, small)
 	}
 	emit("cmd obiconvert devfull 3")
 	emit("cmd obiconvert devfull 2000")
@@ -200,7 +220,11 @@ func (c18) Gen(rng *rand.Rand, tier string, emit func(string)) {
 		if rng.Intn(12) == 0 {
 			cf = 1
 		}
-		one(w, gz, k, cf, arr)
+		own := 1
+		if rng.Intn(8) == 0 {
+			own = 0
+		}
+		oneOwn(w, gz, k, cf, own, arr)
 	}
 }
 
@@ -238,11 +262,12 @@ func repoCommand(name string) (string, error) {
 }
 
 func (c18) Exec(c string) (string, []Fail) {
+	c18InstallHook()
 	f := strings.Fields(c)
 	if len(f) >= 4 && f[0] == "cmd" {
 		return c18Cmd(f)
 	}
-	if len(f) < 5 {
+	if len(f) < 6 {
 		return "bad-op", nil
 	}
 	w := f[0]
@@ -256,11 +281,16 @@ func (c18) Exec(c string) (string, []Fail) {
 	gz, ok1 := get(f[1], "gz")
 	k, ok2 := get(f[2], "k")
 	cf, ok3 := get(f[3], "cf")
-	if !ok1 || !ok2 || !ok3 || !strings.HasPrefix(f[4], "zlen=") {
+	own, ok4 := get(f[5], "own")
+	if !ok1 || !ok2 || !ok3 || !ok4 || !strings.HasPrefix(f[4], "zlen=") {
 		return "bad-op", nil
 	}
+	if !c18IsChild() && (own == 0 || cf == 1 || k < 1<<20) {
+		// every fault-injected case runs like a command: its own process, main waiting on the pipe registry
+		return c18Child(c)
+	}
 	var arrival []c18Arr
-	for _, p := range f[5:] {
+	for _, p := range f[6:] {
 		q := strings.Split(p, ":")
 		if len(q) < 2 {
 			return "bad-op", nil
@@ -275,7 +305,7 @@ func (c18) Exec(c string) (string, []Fail) {
 	stat("writer:" + w)
 	// reference run on a sink that never fails: the expected bytes
 	ref := &failSink{limit: 1 << 30}
-	if r := c18Run(w, gz == 1, arrival, ref); r != "ok" {
+	if r := c18Run(w, gz == 1, own == 1, arrival, ref); r != "ok" {
 		return "bad-op", []Fail{{Sig: w + ".reference-run", Text: "writer fails on a sink that never fails: " + r}}
 	}
 	expected := append([]byte{}, ref.buf.Bytes()...)
@@ -298,9 +328,48 @@ func (c18) Exec(c string) (string, []Fail) {
 		}
 		texts[i] = fmt.Sprintf("%d:%d:%s", a.order, a.n, hx(t))
 	}
-	caseOverride = fmt.Sprintf("%s gz=%d k=%d cf=%d zlen=%d %s", w, gz, k, cf, zlen, strings.Join(texts, " "))
+	caseOverride = fmt.Sprintf("%s gz=%d k=%d cf=%d zlen=%d own=%d %s", w, gz, k, cf, zlen, own, strings.Join(texts, " "))
+	// the complete result, assembled independently of any run of the writer: the chunk texts in batch order
+	var refFails []Fail
+	if gz == 0 {
+		byOrder := make([][]byte, len(arrival))
+		okOrders := true
+		for i, a := range arrival {
+			if a.order < 0 || a.order >= len(arrival) {
+				okOrders = false
+				break
+			}
+			t, _ := unhx(strings.SplitN(texts[i], ":", 3)[2])
+			byOrder[a.order] = t
+		}
+		if okOrders {
+			var want []byte
+			if w == "json" {
+				want = append(want, "[\n"...)
+				first := true
+				for _, t := range byOrder {
+					if len(t) == 0 {
+						continue
+					}
+					if !first {
+						want = append(want, ",\n"...)
+					}
+					want = append(want, t...)
+					first = false
+				}
+				want = append(want, "\n]\n"...)
+			} else {
+				for _, t := range byOrder {
+					want = append(want, t...)
+				}
+			}
+			if !bytes.Equal(want, expected) {
+				refFails = append(refFails, Fail{Sig: w + ".silent-loss.no-fault", Text: fmt.Sprintf("on a sink that never fails the writer ended normally with %d of %d bytes written", len(expected), len(want))})
+			}
+		}
+	}
 	sink := &failSink{limit: k, closeErr: cf == 1}
-	out := c18Run(w, gz == 1, arrival, sink)
+	out := c18Run(w, gz == 1, own == 1, arrival, sink)
 	sink.mu.Lock()
 	got := append([]byte{}, sink.buf.Bytes()...)
 	sink.mu.Unlock()
@@ -310,7 +379,7 @@ func (c18) Exec(c string) (string, []Fail) {
 	if len(expected) < 4096 {
 		stat("result<4KiB")
 	}
-	var fails []Fail
+	fails := refFails
 	class := "small"
 	if len(expected) >= 4096 {
 		class = "large"
@@ -320,6 +389,9 @@ func (c18) Exec(c string) (string, []Fail) {
 	}
 	if cf == 1 {
 		class += "-closefail"
+	}
+	if own == 0 {
+		class += "-notowned"
 	}
 	if out == "ok" {
 		complete := bytes.Equal(got, expected)
@@ -335,7 +407,7 @@ func (c18) Exec(c string) (string, []Fail) {
 		if !complete {
 			fails = append(fails, Fail{Sig: w + ".silent-loss." + class, Text: fmt.Sprintf("writer ended normally but the sink holds %d of %d bytes", len(got), len(expected))})
 		}
-		if cf == 1 {
+		if cf == 1 && own == 1 {
 			fails = append(fails, Fail{Sig: w + ".silent-loss." + class, Text: "Close failed but the writer ended normally"})
 		}
 	} else if out != "fatal" {
@@ -405,5 +477,56 @@ func c18Cmd(f []string) (string, []Fail) {
 	}
 	// the model has no process: the expected result is part of the line protocol
 	caseOverride = strings.Join(f, " ")
+	return res, fails
+}
+
+func c18IsChild() bool { return os.Getenv("C18_CHILD") != "" }
+
+// slowFatal delays the report of a fatal error by a few milliseconds (a logrus hook runs before the
+// exit function): if the code under test has already told the rest of the program that the output is
+// complete (pipe unregistered, iterator ended) before it reports the failure, main() wins the race
+// deterministically here, as it does about one time in two in the real command.
+type slowFatal struct{}
+
+func (slowFatal) Levels() []log.Level { return []log.Level{log.FatalLevel} }
+func (slowFatal) Fire(*log.Entry) error {
+	time.Sleep(30 * time.Millisecond)
+	return nil
+}
+
+// c18Hooked installs the hook once; main() sets the log level after init, so this is done lazily
+var c18Hooked bool
+
+func c18InstallHook() {
+	if c18IsChild() && !c18Hooked {
+		c18Hooked = true
+		log.SetLevel(log.FatalLevel) // hooks only fire for enabled levels (output is discarded anyway)
+		log.AddHook(slowFatal{})
+	}
+}
+
+// c18Child runs one case in a process of its own (the pipe registry of the real code is process wide
+// and is left unbalanced by every case that ends in log.Fatal).
+func c18Child(c string) (string, []Fail) {
+	cmd := exec.Command(os.Args[0], "C18", "exec")
+	cmd.Env = append(os.Environ(), "C18_CHILD=1")
+	cmd.Stdin = strings.NewReader(c + "\n")
+	outb, err := cmd.Output()
+	if err != nil {
+		return "child-error", []Fail{{Sig: "child.error", Text: err.Error()}}
+	}
+	res := "child-error"
+	var fails []Fail
+	for _, l := range strings.Split(string(outb), "\n") {
+		p := strings.Split(l, "\t")
+		switch {
+		case p[0] == "C" && len(p) >= 3:
+			caseOverride = p[1]
+			res = p[2]
+		case p[0] == "F" && len(p) >= 4:
+			fails = append(fails, Fail{Sig: p[1], Text: p[3]})
+		}
+	}
+	stat("child-process")
 	return res, fails
 }
